@@ -710,7 +710,10 @@ class CGenerator:
             else:
                 file_to_preserve = os.path.join(preserve_dir, filename_nopath)
             preservation = Preservative(file_to_preserve)
-            preservation.Emplace(codemodel.filenames_to_lines)
+            # The code preserved from a file belongs to that file only (not to every file whose name it contains).
+            single = OrderedDict([(filename_nopath, codemodel.filenames_to_lines[filename_nopath])])
+            preservation.Emplace(single)
+            codemodel.filenames_to_lines.update(single)
 '''------------------------------------------------------------------------------------------------------'''
 
 
